@@ -6,6 +6,8 @@ From Coq Require Import ZArith List Bool Lia.
 Import ListNotations.
 From V Require Import Base.Tree Base.Bytes Gen.GenC04 C04.GoInt C04.Calendar C04.Utf16 C04.Model C04.Exchange
   C04.RefCalendar C04.Spec C04.RefCalFacts C04.CalFacts C04.CalSweep C04.ProofsScalar C04.ProofsUnitext C04.ProofsTemporal C04.ProofsSpec.
+(* package leg: the field-data / PARAMS / ROW codec of the package layer and its composition with the value codec *)
+From V Require Import Base.Parser Pkg.GenTypes Gen.GenPkg Pkg.Field Pkg.Fmts C04.PkgLeg C04.PkgLegProofs.
 Open Scope Z_scope.
 
 (* (1) fixed-width integers INT1/2/4/8, UINT2/4/8 with their Go types: every value of the type, any length
@@ -157,6 +159,115 @@ Theorem C04_model_meets_spec : forall t len v,
   roundtrip_ok t len v (enc_value t v len) (match enc_value t v len with Ok b => Some (dec_value t b) | _ => None end) = true.
 Proof. exact model_meets_spec. Qed.
 
+(* ------------------------------------------------------------------------------------------------------------
+   PACKAGE LEG: "The same holds when the value travels inside a parameter or row package together with its format."
+   A column is (format, status byte, [text pointer, timestamp,] Go value).  PkgLeg.col_claim is the boolean domain:
+   the data type code is a byte, the value lies in the value-level domain Spec.in_domain for the format's maximum
+   length (or is NULL of a nullable type), DECN/NUMN values carry the precision/scale of their format, the status fits
+   its byte, and THE ENCODED VALUE FITS THE WIDTH OF ITS LENGTH PREFIX (zlen < 256^LengthBytes; fixed-length types
+   have no prefix; text-pointer data < 2^32, pointer < 256, timestamp = 8 bytes).  Beyond that bound the writer
+   truncates the length silently (uint8(len)): outside the property's domain, see C04_ex_pkg_overlong.
+
+   (17) the composition, for whole rows (any number of columns, any mix of types, PARAMS or ROW token), by induction
+   over the column list from Pkg.CoreRoundtrip.params_roundtrip and C04_model_meets_spec: the package the writer
+   produces for the columns (leg_write: every value encoded by enc_value with the format's maximum length, framed by
+   status byte / length prefix / text-pointer header as Pkg.Field.enc_fdata says) is read back by the package decoder
+   with the formats as context, field by field, consuming exactly the bytes written whatever follows; every field has
+   the status sent, its data are the encoded value, NULL travels as zero length, and the value decoder maps the data
+   back to the value: exactly, or to the tick, as Spec.roundtrip_ok says.  For the text-pointer family
+   (TEXT/IMAGE/UNITEXT/XML), which a client never sends, this is the decode direction: the body is the layout of a
+   reference-encoded row. *)
+Theorem C04_pkg_roundtrip : forall tok cs, forallb col_claim cs = true ->
+  exists ds body,
+    leg_write tok cs = Ok (tok :: body) /\
+    (forall r, dec_params (Some (map c_fmt cs)) (body ++ r) = POk ds r) /\
+    Forall2 (fun c d =>
+      let t := f_dt (c_fmt c) in let len := f_maxlen (c_fmt c) in
+      enc_value t (c_val c) len = Ok (v_data d) /\ v_status d = c_status c /\
+      v_txtptr d = c_txtptr c /\ v_timestamp d = c_ts c /\
+      (c_val c = VNull -> v_data d = []) /\
+      exists v', dec_value t (v_data d) = Ok v' /\ roundtrip_ok t len (c_val c) (Ok (v_data d)) (Some (Ok v')) = true) cs ds.
+Proof. exact pkg_roundtrip_explicit. Qed.
+
+(* (18) the model of what the library does (leg_write; then leg_read = package decoder + FieldData.Value(): GoValue of the data,
+   precision/scale of DECN/NUMN taken from the format, RAW data bytes for text-pointer fields) satisfies the executable
+   specification leg_judge that every run applies to the implementation's output:
+   - for every claimed row: the framing is the layout, all bytes are consumed, statuses arrive, and (val_raw_ok) text-pointer
+     fields deliver exactly the data bytes, which dec_value maps back to the value;
+   - strictly (val_ok: Value() IS the value, exactly or to the tick; DECN/NUMN with the format's precision/scale; NULL is NULL)
+     for rows of plain, precision/scale and IMAGE/XML columns. *)
+Theorem C04_pkg_model_meets_spec : forall tok cs, forallb col_claim cs = true ->
+  exists wire, leg_write tok cs = Ok wire /\
+    leg_judge val_raw_ok tok cs wire (leg_read (map c_fmt cs) (tl wire)) = true /\
+    (forallb col_strict cs = true -> leg_judge val_ok tok cs wire (leg_read (map c_fmt cs) (tl wire)) = true).
+Proof. exact pkg_model_meets_spec. Qed.
+
+(* (19) REFUTED for the text-pointer family on the current code: the strict statement for ALL claimed rows is false of the
+   faithful model, because fieldDataTxtPtr.ReadFrom stores the raw data bytes as the value and never runs GoValue: a UNITEXT
+   column delivers UTF-16LE bytes instead of the string, a TEXT column a []byte instead of a string, NULL a non-nil empty
+   []byte.  Witnesses by computation; recorded as known findings (fn 21, classes pkg-txtptr-unitext/-text/-null).
+   What holds instead is (17) and the val_raw_ok half of (18). *)
+Theorem C04_pkg_txtptr_refuted :
+  ~ (forall tok cs, forallb col_claim cs = true ->
+       exists wire, leg_write tok cs = Ok wire /\ leg_judge val_ok tok cs wire (leg_read (map c_fmt cs) (tl wire)) = true).
+Proof. exact pkg_strict_refuted. Qed.
+Theorem C04_pkg_txtptr_witnesses :
+  forall c, In c [ex_txtptr t_UNITEXT (VText [97; 233]); ex_txtptr t_TEXT (VStr [97; 98; 99]); ex_txtptr t_IMAGE VNull] ->
+  col_claim c = true /\
+  exists wire, leg_write 209 [c] = Ok wire /\ leg_judge val_ok 209 [c] wire (leg_read [c_fmt c] (tl wire)) = false.
+Proof. exact pkg_txtptr_refuted_witness. Qed.
+
+(* (20) "every format entry whose declared max length admits the encoded value": a declared maximum that the prefix can
+   express and that is not exceeded by the encoded value implies the prefix side condition of col_claim *)
+Theorem C04_pkg_maxlen_admits : forall c,
+  let f := c_fmt c in let t := f_dt f in
+  0 <= t < 256 -> data_class t = 1 \/ data_class t = 2 ->
+  in_domain t (c_val c) (f_maxlen f) = true \/ null_in t (c_val c) = true ->
+  (if has_colstatus f then 0 <= c_status c < 256 else c_status c = 0) ->
+  (forall p s x, c_val c = VDec p s (Some x) -> data_class t = 2 -> p = f_prec f /\ s = f_scale f) ->
+  c_txtptr c = [] -> c_ts c = [] ->
+  maxlen_admits c = true -> col_claim c = true.
+Proof. exact maxlen_admits_claim. Qed.
+
+(* (21) table obligations re-proved against the regenerated tables on every run: the two tabulations of ByteSize / LengthBytes
+   (Gen/GenC04.v, Gen/GenPkg.v) agree on all 256 type codes; whenever the model's GoValue succeeds on the data of a plain or
+   precision/scale field, the package layer's "GoValue succeeds for this length" table lets the field through; nullable types
+   are not fixed-length; the precision/scale field class is exactly DECN/NUMN *)
+Theorem C04_pkg_tables_agree : forall t, 0 <= t < 256 -> bytesize t = byte_size t.
+Proof. exact bytesize_byte_size. Qed.
+Theorem C04_pkg_len_table_covers : forall t bs v, 0 <= t < 256 -> data_class t = 1 \/ data_class t = 2 ->
+  dec_value t bs = Ok v -> value_len_ok t (zlen bs) = true.
+Proof. exact dec_value_len_ok. Qed.
+Theorem C04_pkg_nullable_not_fixed : forall t, 0 <= t < 256 -> nullable t = true -> is_fixed t = false.
+Proof. exact nullable_not_fixed. Qed.
+Theorem C04_pkg_class2_is_decimal : forall t, 0 <= t < 256 -> data_class t = 2 -> t = t_DECN \/ t = t_NUMN.
+Proof. exact class2_is_decimal. Qed.
+
+(* non-vacuity of the package leg: a row of five columns at the boundaries satisfies col_claim (a 255-byte VARCHAR with its
+   1-byte prefix, a pre-1900 DATETIMEN(8) with status byte, a negative NUMN(38,2), NULL in an INTN, a 300-byte LONGBINARY
+   with its 4-byte prefix); the bytes of a small row; the side condition fails one byte later *)
+Example C04_ex_pkg_claim :
+  forallb col_claim [ex_col (ex_fmt t_VARCHAR 0 255 0 0) 0 (VStr (repeat 120 255));
+                     ex_col (ex_fmt t_DATETIMEN 8 8 0 0) 2 (VTime (CT 1899 12 31 12 0 0 0));
+                     ex_col (ex_fmt t_NUMN 0 17 38 2) 0 (VDec 38 2 (Some (-12345)));
+                     ex_col (ex_fmt t_INTN 0 4 0 0) 0 VNull;
+                     ex_col (ex_fmt t_LONGBINARY 0 70000 0 0) 0 (VBytes (repeat 7 300))] = true.
+Proof. vm_compute. reflexivity. Qed.
+Example C04_ex_pkg_bytes :
+  leg_write 215 [ex_col (ex_fmt t_VARCHAR 0 255 0 0) 0 (VStr [120; 121]); ex_col (ex_fmt t_DATETIMEN 8 8 0 0) 2 (VTime (CT 1899 12 31 12 0 0 0));
+                 ex_col (ex_fmt t_NUMN 0 17 38 2) 0 (VDec 38 2 (Some (-12345))); ex_col (ex_fmt t_INTN 0 4 0 0) 0 VNull]
+  = Ok [215; 2; 120; 121; 2; 8; 255; 255; 255; 255; 0; 193; 197; 0; 3; 1; 48; 57; 0].
+Proof. vm_compute. reflexivity. Qed.
+(* outside the domain (what the current code does when the value is longer than the prefix allows; nothing is claimed here):
+   a 256-byte VARCHAR is written with the length byte 0 followed by the 256 data bytes, and reads back as NULL with one byte
+   consumed; col_claim excludes it *)
+Example C04_ex_pkg_overlong :
+  let c := ex_col (ex_fmt t_VARCHAR 0 255 0 0) 0 (VStr (repeat 120 256)) in
+  col_claim c = false /\ maxlen_admits c = false /\
+  leg_write 215 [c] = Ok (215 :: 0 :: repeat 120 256) /\
+  leg_read [c_fmt c] (0 :: repeat 120 256) = {| r_class := 0; r_consumed := 1; r_vals := [(0, VNull)] |}.
+Proof. vm_compute. repeat split; reflexivity. Qed.
+
 (* non-vacuity: concrete members of the domains, with the bytes *)
 Example C04_ex_int : enc_value t_INT4 (VInt I32 (-2)) 4 = Ok [254; 255; 255; 255] /\ dec_value t_INT4 [254; 255; 255; 255] = Ok (VInt I32 (-2)).
 Proof. split; vm_compute; reflexivity. Qed.
@@ -202,3 +313,12 @@ Print Assumptions C04_null_decimal.
 Print Assumptions C04_civil_inverse.
 Print Assumptions C04_ref_index_is_walk.
 Print Assumptions C04_model_meets_spec.
+Print Assumptions C04_pkg_roundtrip.
+Print Assumptions C04_pkg_model_meets_spec.
+Print Assumptions C04_pkg_txtptr_refuted.
+Print Assumptions C04_pkg_txtptr_witnesses.
+Print Assumptions C04_pkg_maxlen_admits.
+Print Assumptions C04_pkg_tables_agree.
+Print Assumptions C04_pkg_len_table_covers.
+Print Assumptions C04_pkg_nullable_not_fixed.
+Print Assumptions C04_pkg_class2_is_decimal.
